@@ -193,7 +193,18 @@ pub fn run_case(rep: &mut Report, case: &Case, verbose: bool) {
                         _ => T_ANNOUNCE_TIMER,
                     };
                     let witness = if sim.nodes[a].timers[p][needs].is_none() { format!("{}-timer-not-armed", TIMER_NAMES[needs]) } else { "timer-armed-but-late".to_string() };
-                    let ctx = if was_faulty_recently { "after-faulty-recovery" } else { "no-fault" };
+                    // which history led here: was the port's announce receipt timer running when it
+                    // (last) became Faulty?  (A master port's is not: known finding.)
+                    let at_entry = sim.log.iter().rev().find_map(|e| match e.kind {
+                        LogKind::StateChange { to: PortState::Faulty, receipt_armed, .. } if e.node == a && e.port == p => Some(receipt_armed),
+                        _ => None,
+                    });
+                    let ctx = match (was_faulty_recently, at_entry) {
+                        (_, Some(true)) => "after-faulty-recovery|receipt-timer-at-fault-entry=armed",
+                        (_, Some(false)) => "after-faulty-recovery|receipt-timer-at-fault-entry=unarmed",
+                        (true, None) => "after-faulty-recovery|other-port",
+                        (false, None) => "no-fault",
+                    };
                     rep.violation(
                         &format!("C12|silence|not-master|{}|{witness}|{ctx}", state_name(st)),
                         &format!("after {} s of total silence port {p} is {} (armed timers: {armed:?}); started from {:?}", ta / 1_000_000_000, state_name(st), start_states.iter().map(|s| state_name(*s)).collect::<Vec<_>>()),
